@@ -2,7 +2,11 @@
 
 // C17 harness: state export / import round trip.
 //
-// input :  rt <cseed> <pseed> <nsvc> { <sid> <iseed> <ns> {<key> <val>}*ns <np> {<blob>}*np <nl> {<hash> <len> <slots>}*nl }*nsvc
+// input :  rt <cseed> <pseed> <nsvc> { <sid> <iseed> <ns> {<key> <val>}*ns <np> {<blob>|<hash>=<blob>}*np <nl> {<hash> <len> <slots>}*nl }*nsvc
+//	      (a preimage is filed under Blake2b(blob), or under the spelled-out hash when that form is used: an entry no
+//	       importer can recognise as a preimage, it must come back as a raw entry)
+//	      [ x <n> {<key31> <val>}*n ]     foreign key-values mixed into the exported list before the import
+//	                                      (random keys, near misses of component keys and of service-information keys)
 //
 //	cseed  seeds the 16 state components (tiny protocol parameters), iseed the ServiceInfo of a service,
 //	pseed  the permutation of the exported key-values; the logical content of every service is spelled out
@@ -325,6 +329,7 @@ func gen(rng *h.Rng, tier string, emit func(string)) {
 		}
 		fmt.Fprintf(&sb, "rt %d %d %d", r.U64()>>1, r.U64()>>1, nsvc)
 		used := map[uint32]bool{}
+		allBlobs := [][]byte{}
 		for i := 0; i < nsvc; i++ {
 			sid := genSid(r)
 			for used[sid] {
@@ -365,15 +370,29 @@ func gen(rng *h.Rng, tier string, emit func(string)) {
 			seenB := map[string]bool{}
 			for j := 0; j < np; j++ {
 				b := r.Bytes(blobLen(r))
+				if len(allBlobs) > 0 && r.Chance(1, 5) {
+					b = allBlobs[r.Intn(len(allBlobs))] // the same blob in several services
+					st.Inc("preimage-shared-between-services")
+				}
 				if seenB[string(b)] {
 					continue
 				}
 				seenB[string(b)] = true
 				blobs = append(blobs, b)
 			}
+			allBlobs = append(allBlobs, blobs...)
+			wrong := -1
+			if len(blobs) > 0 && r.Chance(1, 12) {
+				wrong = r.Intn(len(blobs))
+			}
 			fmt.Fprintf(&sb, " %d", len(blobs))
-			for _, b := range blobs {
-				fmt.Fprintf(&sb, " %s", h.Hex(b))
+			for j, b := range blobs {
+				if j == wrong {
+					fmt.Fprintf(&sb, " %s=%s", h.Hex(r.Bytes(32)), h.Hex(b))
+					st.Inc("preimage-filed-under-foreign-hash")
+				} else {
+					fmt.Fprintf(&sb, " %s", h.Hex(b))
+				}
 				st.Inc("preimage-entries")
 			}
 			// lookups: matching a preimage (hash and length), right hash / wrong length, no preimage at all
@@ -424,6 +443,43 @@ func gen(rng *h.Rng, tier string, emit func(string)) {
 			fmt.Fprintf(&sb, " %d", len(lks))
 			for _, e := range lks {
 				fmt.Fprintf(&sb, " %s %d %s", e.hs, e.l, slotsHex(r))
+			}
+		}
+		if r.Chance(1, 3) {
+			nx := 1 + r.Intn(3)
+			fmt.Fprintf(&sb, " x %d", nx)
+			seenX := map[string]bool{}
+			for j := 0; j < nx; j++ {
+				k := r.Bytes(31)
+				kind := r.Intn(5)
+				if kind == 2 && len(seenX) > 0 {
+					kind = 4 // at most one of the five unknown-component keys per case: keys stay pairwise different
+				}
+				switch kind {
+				case 0: // component index in front, one non-zero byte in the tail
+					k = make([]byte, 31)
+					k[0] = byte(1 + r.Intn(16))
+					k[1+r.Intn(30)] = byte(1 + r.Intn(255))
+					st.Inc("foreign-near-component-key")
+				case 1: // 0xff in front, service-id bytes, one non-zero byte where a service-information key has zero
+					k = make([]byte, 31)
+					k[0] = 0xff
+					k[1], k[3], k[5], k[7] = byte(r.U64()), byte(r.U64()), byte(r.U64()), byte(r.U64())
+					z := []int{2, 4, 6, 8 + r.Intn(23)}
+					k[z[r.Intn(4)]] = byte(1 + r.Intn(255))
+					st.Inc("foreign-near-info-key")
+				case 2: // component index outside 1..16 with zero tail
+					k = make([]byte, 31)
+					k[0] = []byte{0, 17, 18, 100, 254}[r.Intn(5)]
+					if seenX[string(k)] {
+						k = r.Bytes(31)
+					}
+					st.Inc("foreign-unknown-component")
+				default:
+					st.Inc("foreign-random-key")
+				}
+				seenX[string(k)] = true
+				fmt.Fprintf(&sb, " %s %s", h.Hex(k), h.Hex(r.Bytes(blobLen(r))))
 			}
 		}
 		st.Inc(fmt.Sprintf("services-%d", nsvc))
@@ -541,8 +597,15 @@ func run(input string) string {
 			acc.StorageDict[string(k)] = h.UnHex(t.next())
 		}
 		for j, n := 0, int(t.u()); j < n; j++ {
-			b := h.UnHex(t.next())
-			acc.PreimageLookup[hash.Blake2bHash(b)] = b
+			tok := t.next()
+			if i := strings.IndexByte(tok, '='); i >= 0 {
+				var hh types.OpaqueHash
+				copy(hh[:], h.UnHex(tok[:i]))
+				acc.PreimageLookup[hh] = h.UnHex(tok[i+1:])
+			} else {
+				b := h.UnHex(tok)
+				acc.PreimageLookup[hash.Blake2bHash(b)] = b
+			}
 		}
 		for j, n := 0, int(t.u()); j < n; j++ {
 			var k types.LookupMetaMapkey
@@ -564,9 +627,25 @@ func run(input string) string {
 		return "export-err"
 	}
 	orig := clone(exported)
+	if t.i < len(t.f) {
+		if t.next() != "x" {
+			panic("verifh: bad case tail")
+		}
+		for j, n := 0, int(t.u()); j < n; j++ {
+			var kv types.StateKeyVal
+			kb := h.UnHex(t.next())
+			if len(kb) != 31 {
+				panic("verifh: foreign key length")
+			}
+			copy(kv.Key[:], kb)
+			kv.Value = h.UnHex(t.next())
+			orig = append(orig, kv)
+		}
+		sort.Slice(orig, func(i, j int) bool { return bytes.Compare(orig[i].Key[:], orig[j].Key[:]) < 0 })
+	}
 	var out strings.Builder
 	fmt.Fprintf(&out, "n=%d keys=", len(orig))
-	for i, kv := range orig { // StateEncoder output is sorted by key
+	for i, kv := range orig { // sorted by key
 		if i > 0 {
 			out.WriteByte(',')
 		}
